@@ -13,6 +13,7 @@ import (
 	"github.com/monshunter/goat/pkg/config"
 	"github.com/monshunter/goat/pkg/log"
 	"github.com/monshunter/goat/pkg/utils"
+	"github.com/monshunter/goat/pkg/verifhook"
 )
 
 // MainPackageInfo represents information about a main package
@@ -45,6 +46,7 @@ func (m *MainPackageInfo) ApplyMainEntry(cfg *printer.Config, packageAlias strin
 	}
 
 	perm := fileInfo.Mode().Perm()
+	verifhook.Boundary("write", m.MainFile)
 	err = os.WriteFile(m.MainFile, content, perm)
 	if err != nil {
 		return nil, err
@@ -53,6 +55,7 @@ func (m *MainPackageInfo) ApplyMainEntry(cfg *printer.Config, packageAlias strin
 	if err != nil {
 		return nil, err
 	}
+	verifhook.Boundary("write", m.MainFile)
 	err = os.WriteFile(m.MainFile, content, perm)
 	if err != nil {
 		return nil, err
